@@ -12,7 +12,7 @@ PROP = dict(
            + _T + "header48 [+draft-id (v5)] + uid field(36) [+ field Y of 16/20 bytes, cookie (v4) / reference-id response (v5)] [+ authenticator field with 16-byte nonce and 1..2 encrypted 16-byte fields, each a cookie or an unknown field] "
            "[+ trailing field X of 16..28 bytes, cookie / reference-id response]; header bytes symbolic except byte 0 (leap 0, version, mode server) and, for NTPv5, timescale/flag bytes (flag byte 15 fixed per harness: authnak or synchronized); the attacker may copy uid and origin from the request. "
            "One datagram per pending request suffices: every observable that a datagram can change is part of the arbitrary pre-state.",
-    outside="real AES-SIV (ideal-AEAD model, below); datagrams with other field lengths/counts than the templates; version bits other than the source's version (dropped before "
+    outside="handle_incoming on a datagram WITH an authenticator field (genuine or forged) is NOT decided: symbolic execution exceeds 8 GB (c07_v4_genuine/forged/..., kept in c07.rs, not registered); that part of the claim is decided one level down on NtpPacket::deserialize (c07_parse_*: which fields become authenticated/encrypted/untrusted, what new_cookies() yields, forged => no packet) - process_message stores exactly new_cookies() and handle_incoming returns on every deserialize error (read, not solver-decided). real AES-SIV (ideal-AEAD model, below); datagrams with other field lengths/counts than the templates; version bits other than the source's version (dropped before "
             "anything else: C12), leap bits, mode other than server, field kinds other than those listed; the AEAD outcome is fixed per harness (genuine / forged) instead of symbolic; "
             ""
             "NTS sources in the V4UpgradingToV5/UpgradedToV5 states (an NTS key exchange never yields them)",
@@ -30,19 +30,9 @@ PROP = dict(
         "clock: ghost non-decreasing instants (deadline check of the pending request is real code)",
     ],
     harnesses=[
-        H(NH, "c07", "c07_v4_plain", "NTPv4, no authenticator: hdr+uid+cookie field in clear (28). Nothing is accepted, no state change at all (incl. NTS-NAK and other kiss codes)", timeout=300),
-        H(NH, "c07", "c07_v4_genuine", "NTPv4, hdr+uid+GENUINE authenticator(1 encrypted field: cookie or unknown): effects only if bound to the pending request; "
-          "stored cookies = exactly the encrypted cookie fields (every byte)", timeout=600),
-        H(NH, "c07", "c07_v4_genuine_pre", "NTPv4, hdr+uid+cookie in clear(16)+genuine authenticator(nothing encrypted): the authenticated-but-not-encrypted cookie is never stored", timeout=600),
-        H(NH, "c07", "c07_v4_genuine_post", "NTPv4, hdr+uid+genuine authenticator+cookie in clear(28) behind it: never stored", timeout=600),
-        H(NH, "c07", "c07_v4_forged", "NTPv4, hdr+uid+FORGED authenticator (decrypt fails): nothing accepted, no state change, also with the right uid/origin", timeout=600),
-        H(NH, "c07", "c07_v4_genuine2", "NTPv4, hdr+uid+genuine authenticator(2 encrypted fields): cookie order and stash overflow", tier="thorough", timeout=1200),
-        H(NH, "c07", "c07_v5_plain_authnak", "NTPv5 with the authnak flag, no authenticator: hdr+draft+uid+field(16); outside the known-defect region: no effect", timeout=300),
-        H(NH, "c07", "c07_v5_plain_sync", "NTPv5 without authnak flag, no authenticator: nothing accepted, no state change", timeout=300),
-        H(NH, "c07", "c07_v5_genuine", "NTPv5, hdr+draft+uid+genuine authenticator(1 encrypted field)", tier="thorough", timeout=1200),
-        H(NH, "c07", "c07_v5_genuine_pre", "NTPv5, reference-id response (Bloom chunk) in front of a genuine authenticator: may be used; no cookie stored", tier="thorough", timeout=1200),
-        H(NH, "c07", "c07_v5_genuine_post", "NTPv5, reference-id response behind a genuine authenticator: Bloom filter untouched", tier="thorough", timeout=1200),
-        H(NH, "c07", "c07_v5_forged", "NTPv5 with authnak flag, forged authenticator: nothing accepted, no state change", tier="thorough", timeout=1200),
+        H(NH, "c07", "c07_v4_plain", "handle_incoming, NTPv4, no authenticator: hdr+uid+cookie field in clear (28). Nothing is accepted, no state change at all (incl. NTS-NAK and other kiss codes)", timeout=300),
+        H(NH, "c07", "c07_v5_plain_authnak", "handle_incoming, NTPv5 with the authnak flag, no authenticator: hdr+draft+uid+reference-id response(16); outside the known-defect region: no effect", timeout=300),
+        H(NH, "c07", "c07_v5_plain_sync", "handle_incoming, NTPv5 without authnak flag, no authenticator: nothing accepted, no state change", timeout=300),
         H(NH, "c07", "c07_v5_plain_kf_authnak_kiss", "KNOWN DEFECT region: unauthenticated NTPv5 datagram (hdr+draft+uid) with stratum 0 + authnak flag + poll 127 / > own interval and the (clear-text) "
           "unique id and client cookie of the request: valid_server_response lets it pass (NTS-NAK exception), then the RATE/DENY branches run before the NTS-NAK branch: "
           "poll rate raised or source demobilised without authentication", timeout=300),
